@@ -13,6 +13,10 @@ def build(repo, tier, seed):
     def witness(group, names, seed):
         from harness import cache_search
         return cache_search.search(seed, faulty=True)
+    from .common import history_induction
+    h_syn, h_und = history_induction()
+    syn = syn + h_syn
+    und = und + h_und
     return {"vcs": vcs, "syntactic": syn, "undecided": und, "functions": fns, "hashes": hashes, "level": "proof", "witness": witness,
             "trusted_base": ["backend contract B-sound with exists() unconstrained (contracts/cache_model.py): the fault assignment (miss, forget, lie-exists, "
                              "fail-get, fail-read-back) is a symbolic oracle per call, so every assignment over histories of any length is covered by the one-step obligations"],
